@@ -29,6 +29,10 @@ class Gen:
     def stmt(self, depth):
         r = self.rnd.random()
         b = lambda: f"%b{self.rnd.randrange(4)}"
+        if depth > 0 and r < 0.05:
+            # a loop already split into pipeline stages (blocks without terminator): the last op of a stage has no
+            # successor in its block
+            return ("pipe", [self.block(0, self.rnd.randint(1, 2)) for _ in range(self.rnd.randint(2, 3))])
         if depth > 0 and r < 0.18:
             return ("for", self.block(depth - 1, self.rnd.randint(1, 3)))
         if depth > 0 and r < 0.34:
@@ -42,6 +46,10 @@ class Gen:
             return ("region", "snax_gemmx", b(), b(), b(), self.newtag())
         if r < 0.85:
             return ("region", "snax_xdma", b(), b(), b(), self.newtag())
+        if r < 0.91:
+            # one-input xDMA regions: rescale down / up are extension kernels (data mover); i32->i32 and i8->i8 are not
+            ti, to = self.rnd.choice([("i32", "i8"), ("i8", "i32"), ("i32", "i8"), ("i32", "i32"), ("i8", "i8")])
+            return ("xregion", self.rnd.choice(["snax_xdma", "snax_xdma", "snax_xdma", "snax_gemmx"]), ti, to, self.rnd.randrange(2), self.rnd.randrange(2), self.newtag())
         return ("test", self.newtag())
 
     def block(self, depth, n):
@@ -61,12 +69,27 @@ def render(prog, second=None):
                 L.append(P + mc.GENERIC.format(i0=s[1], i1=s[2], o=s[3], t=s[4], ty=mc.BUF_T, ind=P))
             elif s[0] == "region":
                 L.append(P + mc.GEMMX_REGION.format(acc=s[1], i0=s[2], i1=s[3], o=s[4], t=s[5], ty=mc.BUF_T, ind=P))
+            elif s[0] == "xregion":
+                _, acc, ti, to, a, b_, t = s
+                nm = lambda ty, k: f"%b{k}" if ty == "i32" else f"%d{k}"
+                mt = lambda ty: mc.BUF_T if ty == "i32" else "memref<8xi8>"
+                L.append(P + mc.XDMA_REGION1.format(acc=acc, i0=nm(ti, a), o=nm(to, b_ + 2 if ti == to else b_), t=t, ti=ti, to=to, tyi=mt(ti), tyo=mt(to), ind=P))
             elif s[0] == "test":
                 L.append(P + f'"test.op"() {{tag = {s[1]} : i32}} : () -> ()')
             elif s[0] == "for":
                 n[0] += 1
                 L.append(P + f"scf.for %i{n[0]} = %lb to %ub step %st {{")
                 emit(s[1], ind + 1)
+                L.append(P + "}")
+            elif s[0] == "pipe":
+                n[0] += 1
+                L.append(P + f"scf.for %i{n[0]} = %lb to %ub step %st {{")
+                L.append(P + "  pipeline.pipeline {")
+                for k, st in enumerate(s[1]):
+                    L.append(P + f"    pipeline.stage {k} {{")
+                    emit(st, ind + 3)
+                    L.append(P + "    }")
+                L.append(P + "  }")
                 L.append(P + "}")
             elif s[0] == "if":
                 L.append(P + f"scf.if %c{s[1]} {{")
@@ -76,7 +99,8 @@ def render(prog, second=None):
                     emit(s[3], ind + 1)
                 L.append(P + "}")
 
-    args = ", ".join(f"%b{i} : {mc.BUF_T}" for i in range(4)) + ", %c0 : i1, %c1 : i1, %lb : index, %ub : index, %st : index"
+    args = ", ".join(f"%b{i} : {mc.BUF_T}" for i in range(4)) + ", %c0 : i1, %c1 : i1, %lb : index, %ub : index, %st : index, " + \
+        ", ".join(f"%d{i} : memref<8xi8>" for i in range(4))
     emit(prog, 2)
     if second is None:
         body = "\n".join(L) + "\n    func.return"
@@ -121,6 +145,8 @@ def run_prog(m, args, core, K):
             ev.append((nm, "all"))
 
     I.handlers["func.call"] = h_call
+    I.handlers["pipeline.pipeline"] = lambda I, op: I.run_block(op.body.block) and None
+    I.handlers["pipeline.stage"] = lambda I, op: I.run_block(op.body.block) and None
     f = [g for g in irsym.module_funcs(m) if g.sym_name.data == "f"][0]
     I.run_func(f, args)
     return ev
@@ -153,7 +179,7 @@ def case_prog(case, K=2):
         bufs = [Opaque("buffer", name=f"b{i}") for i in range(4)]
         lb, ub, st = z3.BitVec("lb", 32), z3.BitVec("ub", 32), z3.BitVec("st", 32)
         E.assume(z3.And(st > 0, st < 64, lb >= 0, lb < 64, ub >= 0, ub < 64))
-        args = bufs + [z3.BitVec("c0", 1), z3.BitVec("c1", 1), lb, ub, st]
+        args = bufs + [z3.BitVec("c0", 1), z3.BitVec("c1", 1), lb, ub, st] + [Opaque("buffer", name=f"d{i}") for i in range(4)]
         t1 = run_prog(m1, args, None, K)
         t2 = run_prog(m2, args, core, K)
         want = [(t, c) for (t, c) in t1 if c == "all" or (c == "dm" and is_dm) or (c == "compute" and is_cp)]
@@ -188,6 +214,10 @@ def case_prog(case, K=2):
             tags.append("multi_block_function")
         if "snax_xdma" in str(prog) + str(second):
             tags.append("xdma_region")
+        if "'pipe'" in str(prog) + str(second):
+            tags.append("pipeline_stages")
+        if any(x in str(prog) + str(second) for x in ("'snax_xdma', 'i32', 'i32'", "'snax_xdma', 'i8', 'i8'")):
+            tags.append("xdma_region_with_a_kernel_no_extension_implements")
         return f["name"] + ("|" + "+".join(tags) if tags else "")
 
     return run_case(fn, replay, signature=sig, sample=dict(program=str(prog)[:300], nb_cores=N, two_blocks=second is not None), key=str(case), max_paths=300)
@@ -205,7 +235,7 @@ def run(chk):
         "the original trace filtered by an independent rule (data movement iff id == N-1, compute iff id == 0, everything else always), "
         "order preserved. The solver's work is small (three classes of core id, control-flow paths); the value is in executing the real "
         "pass output on all paths.")
-    chk.assumptions = ["classification oracle: memref.copy and regions on snax_xdma are data movement; linalg.generic and regions on other accelerators are compute",
+    chk.assumptions = ["classification oracle: memref.copy and regions on snax_xdma whose kernel a streamer extension implements (add i32, rescale i32->i8, i8->i32; table written down in the harness) are data movement; linalg.generic and all other regions are compute",
                        "loops unrolled to K=2; function-constant-pinning (upstream xDSL, driven by the pin_to_constants annotation of the dispatcher) is applied to single-block programs and checked with the same oracle"]
     cases = []
     n = 220 if quick else 2500
